@@ -46,6 +46,16 @@ def clear_caches():
             clear()
 
 
+def _long2(alts):
+    """strings / bytes: an alternative of at least 127 bytes (its compact length needs two varint bytes) other than
+    the one `_longest` picks; everything else: the second alternative"""
+    first = _longest(alts)
+    cands = [a for a in alts if isinstance(a, (str, bytes)) and a != first and 127 <= len(a.encode() if isinstance(a, str) else a) <= 300]
+    blen = lambda a: len(a.encode() if isinstance(a, str) else a)  # noqa: E731
+    other = [a for a in cands if not isinstance(first, (str, bytes)) or blen(a) != blen(first)]  # a different length varint
+    return other[-1] if other else (cands[-1] if cands else _second(alts))
+
+
 class Subject:
     """One class of the colliding class set with two values, their golden encodings (from KRef), a
     value that makes the writer die part-way and an input that makes the reader die part-way."""
@@ -54,7 +64,8 @@ class Subject:
         self.path = path
         self.ws = wire_schema(load_class(path))
         tree = values.build(self.ws, "value", 300)
-        self.wires = [pick_variant(tree, _second), pick_variant(tree, _longest)]
+        # [2]: a second value whose strings / bytes need a multi-byte length varint, different from [1]'s
+        self.wires = [pick_variant(tree, _second), pick_variant(tree, _longest), pick_variant(tree, _long2)]
         self.insts = [bridge.to_entity(self.ws, w) for w in self.wires]
         self.golden = [bytes(refcodec.encode(self.ws, w, bridge.wire_default).buf) for w in self.wires]
         self.bad_value = self._bad_value()
@@ -487,6 +498,9 @@ def harnesses():
         "warm-writer-vs-reader": (warm, lambda: [w_body(A, 1), r_body(A, 0)], [A.golden[1], A.insts[0]]),
         "warm-readers-same-class": (warm, lambda: [r_body(C, 0), r_body(C, 1)], [C.insts[0], C.insts[1]]),
         "warm-writers-different-class": (warm, lambda: [w_body(D, 1), w_body(C, 1)], [D.golden[1], C.golden[1]]),
+        # both threads inside the multi-byte varint path at once (two different long values of one class / of two classes)
+        "warm-writers-two-long-values": (warm, lambda: [w_body(A, 1), w_body(A, 2)], [A.golden[1], A.golden[2]]),
+        "warm-writers-long-values-different-class": (warm, lambda: [w_body(C, 2), w_body(A, 1)], [C.golden[2], A.golden[1]]),
         "cold-writers-same-class": (clear_caches, lambda: [w_body(D, 0), w_body(D, 1)], [D.golden[0], D.golden[1]]),
         "cold-readers-same-class": (clear_caches, lambda: [r_body(D, 0), r_body(D, 1)], [D.insts[0], D.insts[1]]),
         "cold-nested-vs-parent": (clear_caches, lambda: [w_body(B, 1), w_body(A, 0)], [B.golden[1], A.golden[0]]),
